@@ -13,8 +13,11 @@ def sh(cmd):
 def main():
     d = sys.argv[1]
     only = sys.argv[2:]
+    repo = "/repo"
+    if only and only[0] == "--repo":          # run against a scratch worktree instead of /repo itself
+        repo = only[1]; only = only[2:]
     props = [json.loads(l) for l in open(os.path.join(ROOT, "properties.jsonl"))]
-    assert sh("git -C /repo status --porcelain").stdout.strip() == ""
+    assert sh("git -C %s status --porcelain" % repo).stdout.strip() == ""
     alarms = 0
     for name in sorted(x for x in os.listdir(d) if os.path.isdir(os.path.join(d, x))):
         for h in sorted(os.listdir(os.path.join(d, name))):
@@ -24,17 +27,21 @@ def main():
             files = set(re.findall(r"^\+\+\+ b/(\S+)", open(patch).read(), re.M))
             pids = [p["id"] for p in props if files & set(p["anchors"]["files"])]
             try:
-                if sh("git -C /repo apply %s" % patch).returncode != 0:
+                if sh("git -C %s apply %s" % (repo, patch)).returncode != 0:
                     print(name, h, "PATCH-FAILED"); continue
                 res = {}
                 for pid in pids:
                     t0 = time.time()
-                    c = sh("cd %s && ./check %s --tier quick" % (ROOT, pid))
+                    ev = os.path.join(ROOT, "evidence", pid + ".json")
+                    keep = open(ev).read() if os.path.exists(ev) else None      # evidence on disk stays that of the unchanged tree
+                    c = sh("cd %s && VERIF_REPO=%s ./check %s --tier quick" % (ROOT, repo, pid))
+                    if keep is not None:
+                        open(ev, "w").write(keep)
                     line = [l for l in c.stdout.splitlines() if l.startswith(("VIOLATION", "OK", "HARNESS"))]
                     res[pid] = (c.returncode, (line[-1] if line else c.stdout[-200:])[:110], round(time.time() - t0))
                     if c.returncode != 0: alarms += 1
             finally:
-                sh("git -C /repo checkout -- .")
+                sh("git -C %s checkout -- ." % repo)
             bad = {k: v for k, v in res.items() if v[0] != 0}
             print(name, h, sorted(files), "checks=%d" % len(res), "ALARMS=%s" % json.dumps(bad) if bad else "no alarm", flush=True)
     print("total alarms", alarms)
